@@ -77,6 +77,20 @@ def fixed_cases(tier):
             if f["f"] in ("iter", "names"):
                 f["params"].append(["struct_name", "My%sStruct" % f["f"].capitalize()])
         out.append({"spec": spec, "cfg": cfg, "sorted": None, "match_excluded": True, "seed": 8})
+    # size matrix on the 8-bit reprs: enums that half-fill, nearly fill and fill the type, gapless and with holes,
+    # all features on (indexes, offsets and lengths at the width limit)
+    for r in ("u8", "i8"):
+        lo, hi = M.repr_domain(r)
+        shapes = [list(range(lo, lo + n)) for n in (128, 129, 255, 256)]
+        shapes += [list(range(lo, lo + 100)) + list(range(lo + 101, lo + 130)),                 # 129 values, run 2 starts at position 100
+                   list(range(lo, lo + 128)) + list(range(lo + 129, hi + 1)),                   # 255 values, run 2 starts at position 128
+                   [lo] + list(range(lo + 2, hi + 1)),                                          # 255 values, hole right after the type MIN
+                   list(range(lo, hi - 1)) + [hi]]                                              # 255 values, last run is the type MAX alone
+        for vals in shapes:
+            spec = {"repr": r, "vis": "pub", "ident": "E", "enum_attrs": [],
+                    "variants": [{"ident": "V%d" % i, "disc": str(v)} for i, v in enumerate(vals)]}
+            cfg = S.simple_config(E.ALL_FEATURES, {"as_str": "table", "iter": "table"} if len(vals) % 2 else {})
+            out.append({"spec": spec, "cfg": cfg, "sorted": ["value"], "match_excluded": True, "seed": 9})
     for r in M.REPRS:
         lo, hi = M.repr_domain(r)
         for shape in ("gapless", "holes"):
